@@ -14,7 +14,7 @@ pub fn def() -> CheckDef {
     CheckDef {
         id: "C27",
         level: "exploration",
-        rule: "four parsers (extern-token and built-in-lexer grammar x table-driven and recursive-ascent), each shared as one value: (a) every ordered pair and triple of inputs from a set mixing accepted, rejected and lexically invalid inputs parsed one after another by the same parser value; (b) shuttle DfsScheduler (exhaustive below a per-job schedule cap that is reported when reached) over 2 threads x every ordered pair of inputs with <= 3 tokens and 3 threads x inputs with <= 1 token (thorough: 2 threads also on 4-5 token inputs), all sharing one Arc<Parser>, yielding to the scheduler at every token pull and every action; oracle: each result equals the fresh-parser result for that input; (c) `fn assert<T: Send + Sync>()` instantiated at every parser type. evaluations = parses; distinct_nontrivial = distinct interleavings of yield points observed by the DFS",
+        rule: "four parsers (extern-token and built-in-lexer grammar x table-driven and recursive-ascent), each shared as one value: (a) every ordered pair and triple of inputs from a set mixing accepted, rejected and lexically invalid inputs parsed one after another by the same parser value (one input makes an action panic: the unwound parse must leave the parser usable); (b) shuttle DfsScheduler (exhaustive below a per-job schedule cap that is reported when reached) over 2 threads x every ordered pair of inputs with <= 3 tokens and 3 threads x inputs with <= 1 token (thorough: 2 threads also on 4-5 token inputs), all sharing one Arc<Parser>, yielding to the scheduler at every token pull and every action; oracle: each result equals the fresh-parser result for that input; (c) `fn assert<T: Send + Sync>()` instantiated at every parser type. evaluations = parses; distinct_nontrivial = distinct interleavings of yield points observed by the DFS",
         evaluations: "parses",
         nontrivial: "distinct_interleavings",
         mc: None,
@@ -40,7 +40,7 @@ const G_INTERN: &str = r##"use super::yp;
 GRAMMAR_ATTR
 grammar;
 pub S: String = { <l:@L> <i:Item*> <r:@R> => { yp(); format!("{}..{}:{}", l, r, i.join(",")) } };
-Item: String = { r"[a-z]+" => { yp(); <>.to_string() }, "(" <s:Inner> ")" => { yp(); format!("[{}]", s) }, r"[0-9]+" => { yp(); format!("#{}", <>) } };
+Item: String = { r"[a-z]+" => { yp(); <>.to_string() }, "(" <s:Inner> ")" => { yp(); format!("[{}]", s) }, <n:r"[0-9]+"> => { yp(); if n == "13" { panic!("unlucky number") }; format!("#{}", n) } };
 Inner: String = { Item* => { yp(); <>.join(",") } };
 "##;
 
@@ -127,7 +127,8 @@ pub fn sequential<P>(mk: fn() -> P, inputs: &[String], parse: fn(&P, &str) -> St
 
 fn glue(intern: bool) -> String {
     let parse_fn = if intern {
-        "fn parse_one(p: &SParser, input: &str) -> String { format!(\"{:?}\", p.parse(input)) }\n"
+        // an action may panic (input `13`): the unwound parse must leave the parser usable
+        "fn parse_one(p: &SParser, input: &str) -> String { match std::panic::catch_unwind(std::panic::AssertUnwindSafe(|| format!(\"{:?}\", p.parse(input)))) { Ok(s) => s, Err(_) => \"PANICKED\".to_string() } }\n"
     } else {
         "fn parse_one(p: &SParser, input: &str) -> String { let toks = toks(input); format!(\"{:?}\", p.parse(Yielding { inner: toks.into_iter() })) }\n"
     };
@@ -194,7 +195,7 @@ fn run(ctx: &mut Ctx) {
     }
     // inputs
     let ext_inputs: Vec<&str> = vec!["", "0", "00", "012", "01", "2", "0102", "1012", "E0", "0E"];
-    let int_inputs: Vec<&str> = vec!["", "ab", "ab 12", "(x y)", "(x", ")", "a $", "((a)) 7", "Z"];
+    let int_inputs: Vec<&str> = vec!["", "ab", "ab 12", "(x y)", "(x", ")", "a $", "((a)) 7", "Z", "13", "(a 13"];
     // schedule cap per job: the DFS is exhaustive below it; a job that reaches it is reported as capped
     let cap: usize = if thorough { 20_000_000 } else { 3_000_000 };
     let mut jobs = vec![];
